@@ -290,6 +290,14 @@ class Truthy:
                 elif isinstance(n, ast.Call) and isinstance(n.func, ast.Name) and n.func.id == "bool" and n.args:
                     n_tests += 1
                     self._test(g, n.args[0], n, "bool()", out)
+                elif isinstance(n, ast.Call) and isinstance(n.func, ast.Name) and n.func.id in ("all", "any") and len(n.args) == 1:
+                    # all(values) / any(values): every item of the container is truth-tested
+                    n_tests += 1
+                    a = n.args[0]
+                    if isinstance(a, (ast.GeneratorExp, ast.ListComp)):
+                        self._test(g, a.elt, n, f"{n.func.id}(...) over a comprehension", out)
+                    elif self.d(g, a) == 1:
+                        out.append(Sink(g, n, a, f"{n.func.id}(...) (each item truth-tested)"))
                 elif isinstance(n, ast.Call) and isinstance(n.func, ast.Name) and n.func.id == "filter" and n.args \
                         and isinstance(n.args[0], ast.Constant) and n.args[0].value is None and len(n.args) > 1:
                     n_tests += 1
